@@ -575,6 +575,54 @@ def c14_idlimit_oracle(line, res):
     return None
 
 
+
+# ---------------------------------------------------------------- round 9: kind "streamwait"
+# the peer's stream limit is used up by unanswered exchanges with long deadlines; one more with a short deadline
+def c14_streamwait_gen(rng, tier):
+    out = []
+    for _ in range(budget(tier, 1, 6)):
+        for m in (1, 2, rng.choice([3, 4])):
+            out.append("q%d m=%d long=%d short=%d" % (len(out), m, rng.choice([2000, 2500]), rng.choice([100, 200, 300])))
+    return out
+
+
+def c14_streamwait_oracle(line, res):
+    f = gens.fields(line)
+    r = _res(res)
+    if r.get("short") == "H" or r.get("late") == "1":
+        return ("c14-late: the server allows %s streams, all held by unanswered exchanges (deadline %s ms); one more "
+                "exchange with a %s ms deadline was not back %d ms after its start (%s)"
+                % (f["m"], f["long"], f["short"], int(f["short"]) + 400, res))
+    if r.get("short") not in ("E", "R"):
+        return "c14-bad-result %s" % res
+    return None
+
+
+
+# ---------------------------------------------------------------- round 9: kind "uptimeouts"
+UT_SCHEMES = ("udp", "tcp", "tcp+pipeline", "tls", "tls+pipeline", "https")
+
+
+def c14_uptimeouts_gen(rng, tier):
+    out = []
+    for sc in UT_SCHEMES:
+        out.append("z%d scheme=%s opt=0" % (len(out), sc))
+        out.append("z%d scheme=%s opt=%d" % (len(out), sc, rng.choice([500, 2000, 7000, 45000, 120000])))
+    return out
+
+
+def c14_uptimeouts_oracle(line, res):
+    f = gens.fields(line)
+    r = _res(res)
+    if "idle" not in r:
+        return "c14-bad-result %s" % res
+    if int(r["idle"]) <= 0:
+        return ("c14-no-idle-limit: a %s upstream built with the idle time-out option %s keeps its idle connections for "
+                "ever (idle time-out %s ms): a connection that died silently is reused and the exchange fails at its "
+                "deadline (%s)" % (f["scheme"], "unset" if f["opt"] == "0" else f["opt"] + " ms", r["idle"], res))
+    return None
+
+
 PROPS["C14"] = dict(
     kinds=[dict(name="faults", gen=c14_gen, oracle=c14_oracle, compare=c14_compare, classify=c14_classify,
                 nontrivial=lambda l, r: True, timeout=900),
@@ -595,7 +643,13 @@ PROPS["C14"] = dict(
            dict(name="idlimit", gen=c14_idlimit_gen, oracle=c14_idlimit_oracle,
                 compare=lambda a, b: _res(a).get("res") == _res(b).get("res") and _res(a).get("acc") == _res(b).get("acc"),
                 classify=lambda l, r: "%s/%s" % (gens.fields(l)["tr"], "ok" if set(_res(r).get("res", "E")) <= set("R") else "failed"),
-                nontrivial=lambda l, r: True, timeout=300)],
+                nontrivial=lambda l, r: True, timeout=300),
+           dict(name="streamwait", gen=c14_streamwait_gen, oracle=c14_streamwait_oracle,
+                compare=lambda a, b: _res(a).get("short") == _res(b).get("short") and _res(a).get("late") == _res(b).get("late"),
+                nontrivial=lambda l, r: True, timeout=300),
+           dict(name="uptimeouts", gen=c14_uptimeouts_gen, oracle=c14_uptimeouts_oracle,
+                compare=lambda a, b: _res(a).get("idle") == _res(b).get("idle"),
+                nontrivial=lambda l, r: True, timeout=120)],
     rule="one scripted exchange of a real upstream.NewUpstream (udp, tcp, tcp+pipeline, tls, tls+pipeline, https/h2, quic) "
          "against a fake loopback server (DoQ: quic-go server): refuse / black-hole dial / accept-and-close / silent / half frame / garbage / "
          "FIN / RST on fresh connections, and on pooled connections while idle or at their next use, incl. k = 1, 5, 6, "
